@@ -134,3 +134,79 @@ def may_call(cg, f, target_qual, assume, depth=0, _seen=None) -> bool:
                         if may_call(cg, ed.callee, target_qual, assume, depth + 1, _seen):
                             return True
     return False
+
+
+# ---------------------------------------------------------------------------------------------------------------------
+def bool_flags(g) -> set:
+    """local names that are only ever assigned the constants True / False in this function"""
+    import ast as _ast
+    from ..astutil import walk_local
+    vals = {}
+    for n in walk_local(g.fn, include_root=False):
+        if isinstance(n, _ast.Assign):
+            for t in n.targets:
+                for x in _ast.walk(t):
+                    if isinstance(x, _ast.Name):
+                        ok = isinstance(t, _ast.Name) and isinstance(n.value, _ast.Constant) and isinstance(n.value.value, bool)
+                        vals.setdefault(x.id, []).append(ok)
+        elif isinstance(n, (_ast.AugAssign, _ast.AnnAssign, _ast.For, _ast.comprehension, _ast.NamedExpr)):
+            tgt = n.target
+            for x in _ast.walk(tgt):
+                if isinstance(x, _ast.Name):
+                    ok = isinstance(n, _ast.AnnAssign) and isinstance(tgt, _ast.Name) and isinstance(getattr(n, 'value', None), _ast.Constant) and isinstance(n.value.value, bool)
+                    vals.setdefault(x.id, []).append(ok)
+        elif isinstance(n, _ast.arg):
+            vals.setdefault(n.arg, []).append(False)
+    params = {a.arg for a in g.fn.args.args + g.fn.args.kwonlyargs + g.fn.args.posonlyargs}
+    return {k for k, v in vals.items() if all(v) and k not in params}
+
+
+def marked_reach(g: CFG, mark_edges, reset_nodes, target: Node) -> Optional[List[Node]]:
+    """Is `target` reachable from the entry in a state where a marked edge (test node, label) was taken since the last visit of a
+    reset node?  The search runs in the product of the CFG with the values of the function's boolean flag variables (constant
+    propagation along the path: `flag = True/False` assignments, `if flag` / `if not flag` tests prune the infeasible branch), so a
+    flag-guarded statement after the loop is reached only with the flag values the path really produces.  -> a witness path or None"""
+    import ast as _ast
+    flags = sorted(bool_flags(g))
+    idx = {f: i for i, f in enumerate(flags)}
+    mark = {(t, lab) for t, lab in mark_edges}
+    resets = set(reset_nodes)
+    start = (g.entry, tuple([None] * len(flags)), False)
+    prev = {start: None}
+    queue = [start]
+    while queue:
+        st = queue.pop(0)
+        node, fv, seen = st
+        if node is target and seen:
+            path = []
+            cur = st
+            while cur is not None:
+                path.append(cur[0])
+                cur = prev[cur]
+            return list(reversed(path))
+        fv2 = list(fv)
+        if node.kind == 'stmt' and isinstance(node.ast, _ast.Assign) and len(node.ast.targets) == 1 and isinstance(node.ast.targets[0], _ast.Name) \
+                and node.ast.targets[0].id in idx and isinstance(node.ast.value, _ast.Constant):
+            fv2[idx[node.ast.targets[0].id]] = bool(node.ast.value.value)
+        seen2 = False if node in resets else seen
+        for m, lab in g.succ[node]:
+            if node.kind == 'test' and lab in ('T', 'F'):
+                v = None
+                if isinstance(node.ast, _ast.Name) and node.ast.id in idx:
+                    v = fv2[idx[node.ast.id]]
+                elif isinstance(node.ast, _ast.Compare) and len(node.ast.ops) == 1 and isinstance(node.ast.left, _ast.Name) and node.ast.left.id in idx \
+                        and isinstance(node.ast.comparators[0], _ast.Constant) and isinstance(node.ast.comparators[0].value, bool) \
+                        and isinstance(node.ast.ops[0], (_ast.Is, _ast.Eq, _ast.IsNot, _ast.NotEq)):
+                    cur_v = fv2[idx[node.ast.left.id]]
+                    if cur_v is not None:
+                        v = (cur_v == node.ast.comparators[0].value)
+                        if isinstance(node.ast.ops[0], (_ast.IsNot, _ast.NotEq)):
+                            v = not v
+                if v is not None and v != (lab == 'T'):
+                    continue
+            s3 = seen2 or ((node, lab) in mark)
+            nxt = (m, tuple(fv2), s3)
+            if nxt not in prev:
+                prev[nxt] = st
+                queue.append(nxt)
+    return None
